@@ -129,6 +129,74 @@ Theorem C17_tagged_threads_safe_corollary :
 Proof. exact tagged_threads_safe_from_generic. Qed.
 Print Assumptions C17_tagged_threads_safe_corollary.
 
+(* ---------------------------------------------------------------- vocabulary
+   the definitions the instance statements use, spelled out (each closed by
+   reflexivity): the program shapes, the window predicate, the memory reader,
+   and for every array codec the pure function a call computes — always the
+   model function of the codec applied to the cells read (as uint64_t / uint8_t
+   where the bound theorems need it), giving (cells written, values returned) *)
+Example C17_vocabulary_programs :
+  (forall lo len l, in_range lo len l <-> lo <= l < lo + N.of_nat len) /\
+  (forall src n dst f,
+     prog1 src n dst f = read_bytes src n [] (fun bs => write_bytes dst (fst (f bs)) (Ret (snd (f bs))))) /\
+  (forall s1 n1 s2 n2 dst f,
+     prog2 s1 n1 s2 n2 dst f =
+     read_bytes s1 n1 [] (fun a => read_bytes s2 n2 [] (fun b =>
+       write_bytes dst (fst (f a b)) (Ret (snd (f a b)))))) /\
+  (forall src k, read_bytes src 2 [] k = Rd src (fun a => Rd (src + 1) (fun b => k [a; b]))) /\
+  (forall dst a b k, write_bytes dst [a; b] k = Wr dst a (Wr (dst + 1) b k)) /\
+  (forall m s, peek m s 3 = [m s; m (s + 1); m (s + 1 + 1)]) /\
+  (forall bs l, mem_list bs l = nth (N.to_nat l) bs 0).
+Proof. repeat split; intros; try reflexivity; unfold in_range in *; tauto. Qed.
+
+Example C17_vocabulary_functions :
+  (forall meta vs, for_enc_fn meta vs =
+     match for_encode (map u64 vs) (Some meta) with
+     | Some (bs, _) => (bs, [1; N.of_nat (length bs)]) | None => ([], [0]) end) /\
+  (forall vs, for_enc_auto_fn vs =
+     match for_encode (map u64 vs) None with
+     | Some (bs, _) => (bs, [1; N.of_nat (length bs)]) | None => ([], [0]) end) /\
+  (forall cap bs, for_dec_fn cap bs =
+     match for_decode bs cap with Some (r, out) => (out, [1; r]) | None => ([], [0]) end) /\
+  (forall vs, delta_enc_fn vs =
+     (delta_encode_u (map u64 vs), [N.of_nat (length (delta_encode_u (map u64 vs)))])) /\
+  (forall count bs, delta_dec_fn count bs =
+     match delta_decode_u bs count with Some (used, vs) => (vs, [1; used]) | None => ([], [0]) end) /\
+  (forall vs, gamma_enc_fn vs =
+     if forallb (fun x => 1 <=? x) (map u64 vs) then
+       (ee_bytes (elias_gamma_encode_array (map u64 vs)) ++
+        repeat 0 (N.to_nat (ee_extent (elias_gamma_encode_array (map u64 vs)) -
+                            ee_ret (elias_gamma_encode_array (map u64 vs)))),
+        [1; ee_ret (elias_gamma_encode_array (map u64 vs));
+            ee_totalBits (elias_gamma_encode_array (map u64 vs))])
+     else ([], [0])) /\
+  (forall bc bs, gamma_dec_fn bc bs =
+     (elias_gamma_decode_array bs (fst bc) (snd bc),
+      [N.of_nat (length (elias_gamma_decode_array bs (fst bc) (snd bc)))])) /\
+  (forall bc bs, elias_delta_dec_fn bc bs =
+     (elias_delta_decode_array bs (fst bc) (snd bc),
+      [N.of_nat (length (elias_delta_decode_array bs (fst bc) (snd bc)))])) /\
+  (forall vs, rle_enc_fn vs =
+     (fst (rle_encode (map u64 vs)), [N.of_nat (length (fst (rle_encode (map u64 vs))))])) /\
+  (forall cap bs, rle_dec_fn cap bs =
+     (rle_stores (rle_decode bs cap), [N.of_nat (length (rle_stores (rle_decode bs cap)))])) /\
+  (forall cap bs, fst (dict_dec_fn cap bs) =
+     DictSafety.dict_dec_stores (dict_decode_into bs (N.of_nat (length bs)) cap)) /\
+  (forall dv, shared_dict dv =
+     mk_dict (map u64 dv) (N.of_nat (length dv)) (dict_index_width (N.of_nat (length dv)))) /\
+  (forall dv idx, dict_lookup_fn dv idx =
+     (map (fun i => dict_lookup (shared_dict dv) (u32 i)) idx, [N.of_nat (length idx)])) /\
+  (forall dv vs, dict_encwd_fn dv vs =
+     (fst (dict_encode_with_dict (shared_dict dv) (map u64 vs)),
+      [dict_ret (dict_encode_with_dict (shared_dict dv) (map u64 vs))])) /\
+  (forall dn n, dict_encwd_bound dn n = (18 + 9 * dn + n * dict_index_width (N.of_nat dn))%nat) /\
+  (forall bs, bm_view_of bs = fst (bm_decode (map u8 bs) (N.of_nat (length bs)))) /\
+  (forall v bs, bm_contains_fn v bs =
+     ([], match bm_view_of bs with Some s => [1; b2n (bm_contains s (u16 v))] | None => [0] end)) /\
+  (forall bs, bm_to_array_fn bs =
+     match bm_view_of bs with Some s => (bm_to_array s, [1; bm_cardinality s]) | None => ([], [0]) end).
+Proof. repeat split; intros; reflexivity. Qed.
+
 (* ---------------------------------------------------------------- instances *)
 
 (* external varints, little endian (varintExternalPut / varintExternalGet): encoders
@@ -346,6 +414,26 @@ Theorem C17_for_encode_threads_safe :
       fst (crun sched (m0, ths)) (io_dst (fst p) + N.of_nat j) = nth j (fst res) 0.
 Proof. exact for_encode_threads_safe. Qed.
 Print Assumptions C17_for_encode_threads_safe.
+
+(* varintFOREncode with meta = NULL (the call analyses what it reads): the window is
+   the worst case 19 + 8 * count of varintFORSize (C03_for_size_exact, width <= 8) *)
+Theorem C17_for_encode_auto_threads_safe :
+  forall (ps : list io) (m0 : mem),
+  (forall p, In p ps -> io_n p <> 0%nat /\ N.of_nat (io_n p) < 1152921504606846976) ->
+  (forall i j pi pj, i <> j -> nth_error ps i = Some pi -> nth_error ps j = Some pj ->
+     forall l, in_range (io_dst pj) (19 + 8 * io_n pj) l ->
+       ~ in_range (io_dst pi) (19 + 8 * io_n pi) l /\ ~ in_range (io_src pi) (io_n pi) l) ->
+  forall sched,
+  let ths := map (fun p => prog1 (io_src p) (io_n p) (io_dst p) for_enc_auto_fn) ps in
+  ~ races (snd (crun sched (m0, ths))) /\
+  forall i p r, nth_error ps i = Some p ->
+    nth_error (snd (crun sched (m0, ths))) i = Some (Ret r) ->
+    let res := for_enc_auto_fn (peek m0 (io_src p) (io_n p)) in
+    r = snd res /\
+    forall j, (j < length (fst res))%nat ->
+      fst (crun sched (m0, ths)) (io_dst p + N.of_nat j) = nth j (fst res) 0.
+Proof. exact for_encode_auto_threads_safe. Qed.
+Print Assumptions C17_for_encode_auto_threads_safe.
 
 (* varintFORDecode on shared encodings: the window is maxCount elements (C13_for_decode_cap) *)
 Theorem C17_for_decode_threads_safe :
@@ -720,6 +808,14 @@ Example C17_for_encode_example :
   map (fun p => for_size (snd p)) ps = [6; 9] /\
   snd c = [Ret [1; 6]; Ret [1; 9]] /\
   peek (fst c) 100 7 = [7; 1; 3; 0; 1; 2; 0] /\ peek (fst c) 200 10 = [0; 2; 3; 7; 0; 8; 0; 9; 0; 0].
+Proof. vm_compute. repeat split; reflexivity. Qed.
+
+(* FOR encoders with their own analysis on overlapping shared inputs [7;8;300] and [8;300] *)
+Example C17_for_encode_auto_example :
+  let ths := map (fun p => prog1 (io_src p) (io_n p) (io_dst p) for_enc_auto_fn) [mk_io 0 3 100; mk_io 1 2 200] in
+  let c := crun ([1; 0; 1; 1; 0]%nat ++ rr 20 2) (mem_list [7; 8; 300], ths) in
+  snd c = [Ret [1; 9]; Ret [1; 7]] /\
+  peek (fst c) 100 10 = [7; 2; 3; 0; 0; 1; 0; 37; 1; 0] /\ peek (fst c) 200 8 = [8; 2; 2; 0; 0; 36; 1; 0].
 Proof. vm_compute. repeat split; reflexivity. Qed.
 
 (* two FOR decoders on the SAME encoding, capacities 3 (all) and 2 (refused) *)
